@@ -1,5 +1,5 @@
 (* The C support header with the width of size_t as a parameter: the same text as Prims/CPrims.v, every size_t
-   addition/multiplication wrapped modulo M (M = 2^32 on the 32-bit deployment targets, 2^64 on LP64).  uint64_t values
+   addition/multiplication wrapped modulo M (M = 2^32 on the 32-bit deployment targets, 2^64 on LP64).  Current source (incl. the saturating capacity check of nunavutSetUxx).  uint64_t values
    (the `value` argument of nunavutSetUxx) stay 64 bits wide (w64).  CPrimsWThm.v proves that M := two64 gives exactly the
    functions of CPrims.v (the ones that are extracted and run against the compiled header) and proves the main theorems for
    every M >= 2^16, hence for both widths. *)
@@ -69,9 +69,10 @@ Definition get_bitsM (output buf : bytes) (buf_size_bytes off_bits len_bits : N)
   | Some o => copy_bitsM o 0 sat_bits buf off_bits
   end.
 
-(* nunavutSetUxx(buf, buf_size_bytes, off_bits, value, len_bits); value : uint64_t *)
+(* nunavutSetUxx, current text (saturating capacity check, /repo ba46e0a) *)
 Definition set_uxxM (little : bool) (buf : bytes) (buf_size_bytes off_bits value len_bits : N) : option (bytes + err) :=
-  if wM (buf_size_bytes * 8) <? wM (off_bits + len_bits) then Some (inr TooSmall)
+  let capacity_bits := wM (buf_size_bytes * 8) in
+  if (capacity_bits <? off_bits) || (capacity_bits - off_bits <? len_bits) then Some (inr TooSmall)
   else
     let saturated := choose_min len_bits 64 in
     let tmp := if little then mem_le 8 (w64 value) else tmp_any (w64 value) in
@@ -80,7 +81,6 @@ Definition set_uxxM (little : bool) (buf : bytes) (buf_size_bytes off_bits value
     | None => None
     end.
 
-(* nunavutSetIxx: (uint64_t) value *)
 Definition set_ixxM (little : bool) (buf : bytes) (buf_size_bytes off_bits : N) (value : Z) (len_bits : N) : option (bytes + err) :=
   set_uxxM little buf buf_size_bytes off_bits (Z.to_N (value mod Z.of_N two64)) len_bits.
 
@@ -114,17 +114,7 @@ Definition get_ixxM (little : bool) (w : N) (buf : bytes) (buf_size_bytes off_bi
   | Some val => sext_expr w sat val
   end.
 
-(* nunavutSetUxx with the saturating capacity check of design_notes/C14_wrap_fix.patch:
-     const size_t cap = buf_size_bytes * 8U;  if ((off_bits > cap) || (len_bits > (cap - off_bits))) return -TOO_SMALL; *)
-Definition set_uxx_satM (little : bool) (buf : bytes) (buf_size_bytes off_bits value len_bits : N) : option (bytes + err) :=
-  let cap := wM (buf_size_bytes * 8) in
-  if (cap <? off_bits) || (cap - off_bits <? len_bits) then Some (inr TooSmall)
-  else
-    let saturated := choose_min len_bits 64 in
-    let tmp := if little then mem_le 8 (w64 value) else tmp_any (w64 value) in
-    match copy_bitsM buf off_bits saturated tmp 0 with
-    | Some b => Some (inl b)
-    | None => None
-    end.
+(* name kept for Codec/PrimsCur.v: the saturating check is now THE text of nunavutSetUxx *)
+Definition set_uxx_satM := set_uxxM.
 
 End SizeT.
